@@ -124,6 +124,10 @@ def canonical_when(F, text):
     view = 'basic_string_view<char8_t, char_traits<char8_t>>'
     text = re.sub(r'operator==<char8_t, char_traits<char8_t>>\(ipr::impl::\(anon\)internal_string\("([^"]*)"\)\.characters\(\), ([^(),]+)\)',
                   lambda m: f'operator==<char8_t, char_traits<char8_t>>({m.group(2)}, {view}basic_string_view("{m.group(1)}"))', text)
+    # Lemma (C03.find-before-insert + reserved-words-first): interning the word x yields the reserved String "W" exactly when x spells W.
+    # `&intern(x) == &internal_string("W")` and `x == "W"` are the same atom (second form kept)
+    text = re.sub(r'\(&\$this:string_pool\.intern\((P\d+)\) == &ipr::impl::\(anon\)internal_string\("([^"]*)"\)\)',
+                  lambda m: f'operator==<char8_t, char_traits<char8_t>>({m.group(1)}, {view}basic_string_view("{m.group(2)}"))', text)
     return text
 
 
